@@ -79,9 +79,11 @@ theorem freshLoop_label {c : Circuit} {restr : List Label} : ∀ (fuel ctr : Nat
     intro ctr l ctr' h
     simp only [freshLoop] at h
     split at h
-    · exact ih _ _ _ h
-    · simp only [Except.ok.injEq, Prod.mk.injEq] at h
-      exact ⟨ctr, h.1.symm⟩
+    · cases h
+    · split at h
+      · exact ih _ _ _ h
+      · simp only [Except.ok.injEq, Prod.mk.injEq] at h
+        exact ⟨ctr, h.1.symm⟩
 
 /-- every label a run draws is `"new_" ++ …` -/
 theorem run_fr {α} (p : Prog α) : ∀ {st : GSt} {a : α} {st' : GSt}, p.run st = .ok (a, st') →
